@@ -625,6 +625,21 @@ def describe_partial(ev, obs, entry):
 KINDS["partial"] = dict(module="Trace_Partial", shrink=None, describe=describe_partial)
 
 
+def describe_batchignore(ev, obs, entry):
+    t = ev["template"]
+    parts = "P=%s A=%s R=%s C=%s" % tuple("IGNORED" if (t[k] or {}).get("k") == "ignore" else pretty.sv(t[k]) for k in ("p", "a", "r", "c"))
+    pols = "; ".join("%s: %s" % (p["id"], pretty.sp(p["policy"])) for p in ev.get("policies") or [])
+    w = entry.get("witness")
+    wit = str(w)
+    if isinstance(w, int) and 0 < w <= len(ev.get("completions") or []):
+        c = ev["completions"][w - 1]
+        wit = "under the completion P=%s A=%s R=%s C=%s a permit policy is satisfied" % tuple(pretty.sv(c[k]) for k in ("p", "a", "r", "c"))
+    return "batch with ignored parts [%s] %s [store %s] => %s; %s" % (pols[:1500], parts, envhash(t["store"]), json.dumps(obs)[:300], wit)
+
+
+KINDS["batchignore"] = dict(module="Trace_Partial", shrink=None, describe=describe_batchignore)
+
+
 @prop("C06")
 def run_C06(ctx):
     ctx.rule = ("Inputs: MC_PartialGen enumerates every policy of the expression universe (Depth1; thorough adds Depth2) x 13 "
@@ -635,7 +650,10 @@ def run_C06(ctx):
                 "records keep/residual. Trace_Partial then evaluates, with the TLA+ evaluator, the original and the residual under "
                 "EVERY completion of the unknowns drawn from candidate universes (entities for request positions, whole records "
                 "for the context, values of several kinds for nested unknowns) and checks the soundness predicate of "
-                "spec/Partial.tla. Random policies / environments are checked the same way. distinct = distinct inputs.")
+                "spec/Partial.tla. Random policies / environments are checked the same way. Stage ignore: batch.Authorize over "
+                "templates with ignored parts and 8 completions each; the specification evaluates every permit policy under every "
+                "completion, and where one is satisfied the recorded batch answer must be allow with that policy among the reasons, "
+                "or a denial by forbid policies; exactly one result. distinct = distinct inputs.")
     ctx.assumptions = ["completions are drawn from finite candidate universes (Partial!EntCands, CtxCands, ValCands)",
                        "an embedded partial-error node is interpreted as 'evaluation fails'",
                        "a forbid policy with an ignored part is not constrained by the statement"]
@@ -644,6 +662,11 @@ def run_C06(ctx):
     add_gen_exec_validate(ctx, "partial", "universe", "MC_PartialGen", ["mc/MC_PartialGen.tla"], cfg=GEN_CFG + consts,
                           min_cases=1000, timeout=7200)
     add_m3(ctx, "partial", "random", "partial", 2000 if q else 40000)
+    add_m3(ctx, "batchignore", "ignore", "batchignore", 600 if q else 12000)
+    nsat = sum(st.get("ignore_completions_with_satisfied_permit", 0) for st in ctx.cov["stages"])
+    if nsat < 300:
+        raise Broken("C06: only %d completions with a satisfied permit in the batch-ignore stage (vacuous)" % nsat)
+    ctx.cov["ignore_completions_with_satisfied_permit"] = nsat
     return vlib.finish(ctx, confirm_all)
 
 
